@@ -36,6 +36,35 @@ DEFS = ["(Definition/MyDef,(Blue,Red))", "(Definition/ValDef/#,(Green,Label/#))"
         "(Definition/CueDef/#,(Label/#,Label/Fixation))",
         "(Definition/TwoDef/#,((Distance/#,Red),(Distance/2 m,Blue)))"]
 
+# Definition NAMES as an input dimension (schemas with the 8.3 character rules only): ASCII, plain non-ASCII letters,
+# and letters whose lower() differs from their casefold() (sharp s, long s, final sigma, ligatures, Cherokee, ...)
+_SPECIAL = [ch for ch in map(chr, range(0xA0, 0x10000))
+            if ch.isalpha() and ch.isprintable() and ch.lower() != ch.casefold()]
+_PICK = [c for c in "\u00df\u017f\u03c2\u0149\u01f0\u03d0\u1e9e\ufb01\ufb06\u13a0\u1f80\u0587" if c in _SPECIAL]
+NAME_POOL = (["Ma" + c for c in _PICK[:4]] + [c + "tart" for c in _PICK[4:8]] + ["x" + c + "y" for c in _PICK[8:]]
+             + ["Stra\u00dfe", "\u03a3\u03c4\u03cc\u03c7\u03bf\u03c2", "Caf\u00e9", "\u00dcn\u00ef", "\u5b9a\u4e49"])
+NAME_DEFS = (["(Definition/%s,(Blue,Red))" % n for n in NAME_POOL]
+             + ["(Definition/%sV/#,(Green,Label/#))" % n for n in NAME_POOL])
+
+
+def name_cases(rng, V, n_cases):
+    """Conforming references (spelled exactly as declared) to the definitions of NAME_DEFS, and undeclared names."""
+    out = []
+    for _ in range(n_cases):
+        n = rng.choice(NAME_POOL)
+        kind = "special" if any(c in _SPECIAL for c in n) else "plain"
+        forms = ["Def/" + n, ["Def-expand/" + n, ["Blue", "Red"]], "Def/" + n + "V/abc",
+                 ["Def-expand/" + n + "V/x1", ["Green", "Label/x1"]]]
+        if V.temporal:
+            forms += [["Def/" + n, rng.choice(V.temporal)], ["Def/" + n + "V/abc", "Onset"]]
+        out.append((rng.choice(forms), None, "v_def_name_" + kind))
+        if rng.random() < 0.3:
+            bad = n[:-1] + ("q" if n[-1] != "q" else "z") + "9"
+            out.append((rng.choice(["Def/" + bad, ["Def-expand/" + bad, ["Blue", "Red"]]]),
+                        "DEF_EXPAND_INVALID" if False else None, "def_name_undeclared"))
+    return out
+
+
 # conforming Def-expand groups of the two definitions above: values sorting before AND after the sibling's value
 PLACEHOLDER_SIBLING_EXPANSIONS = (
     [["Def-expand/CueDef/" + v, ["Label/" + v, "Label/Fixation"]] for v in ("Alpha", "Target", "Fix", "Fixations", "a1", "zz-9")]
